@@ -1,13 +1,15 @@
-"""C19 history, hash seed and configuration independence (structural clauses)."""
+"""C19 history, hash seed and configuration independence."""
 from __future__ import annotations
 
 import ast
 
 from ..model import (AnalysisError, U, Defs, FuncNode, calls_in, call_name, walk_fn, kwarg, enclosing,
-                     enclosing_stmt, parents, short)
-from ..pathcond import conditions
+                     enclosing_stmt, parents, short, fn_of)
+from ..symex import Symex, Obj, ClassRef, Ext, _freeze
+from ..terms import T, sym, show, subterms, calls, strip, expand_products, args_of
 from . import common
 from . import c08
+from . import dx
 from .deriv import reaching_assignments
 
 EXPLANATION = (
@@ -54,6 +56,197 @@ MUTATORS = {"append", "extend", "update", "pop", "clear", "add", "remove", "inse
             "block_diagonalize_fock", "expand_antisym_eri", "use_symbolic_denominators", "use_explicit_denominators",
             "expand_intermediates", "permute"}
 DEFAULT_NAMES = None
+
+
+# ====================================================================== R19a (1): sort keys
+# Every function that can be reached from a sort key (call graph closure over the repository) is free of hash()/id().
+
+SEED_CALLS = ("hash", "id", "__hash__")
+
+
+def _scope_chain(node):
+    out = []
+    for p in [node] + list(parents(node)):
+        if isinstance(p, FuncNode):
+            out.append(p)
+    return out
+
+
+class CallGraph:
+    def __init__(self, model):
+        self.model = model
+        self.by_short = {}
+        for ref, fn in model.all_functions():
+            self.by_short.setdefault(fn.name, []).append(fn)
+        self._direct = {}
+        self._defs = {}
+        self._busy = set()
+
+    def defs(self, fn):
+        if id(fn) not in self._defs:
+            self._defs[id(fn)] = Defs(fn)
+        return self._defs[id(fn)]
+
+    def resolve_name(self, name, at):
+        """repository functions a bare name may denote at ``at`` (nested defs, local lambdas, module level, imports)"""
+        out = []
+        mod = at._module
+        for sc in _scope_chain(at):
+            q = f"{sc._qual}.{name}"
+            if q in mod.functions:
+                return [mod.functions[q]]
+            b = self.defs(sc).all_defs(name)
+            if b:
+                if (name, id(sc)) in self._busy:
+                    return out
+                self._busy.add((name, id(sc)))
+                try:
+                    for kind, v in b:
+                        if kind in ("assign",) and v is not None:
+                            out.extend(self.functions_of_expr(v, v if hasattr(v, "_module") else at))
+                finally:
+                    self._busy.discard((name, id(sc)))
+                return out
+        if name in mod.functions:
+            return [mod.functions[name]]
+        if name in mod.classes:
+            return [f for q, f in mod.functions.items() if q.rsplit(".", 1)[0] == name and f.name in ("__init__", "__new__", "__post_init__", "__call__")]
+        if name in mod.imports:
+            origin = mod.imports[name]
+            modp, _, obj = origin.partition(":")
+            if _ and modp.startswith("."):
+                tgt = modp.lstrip(".")
+                base = mod.name.split(".")[:-1]
+                lvl = len(modp) - len(tgt)
+                if lvl > 1:
+                    base = base[:len(base) - (lvl - 1)]
+                full = ".".join(base + ([tgt] if tgt else []))
+                m2 = self.model.modules.get(full)
+                if m2 is not None:
+                    if obj in m2.functions:
+                        return [m2.functions[obj]]
+                    if obj in m2.classes:
+                        return [f for q, f in m2.functions.items() if q.rsplit(".", 1)[0] == obj and
+                                f.name in ("__init__", "__new__", "__post_init__", "__call__")]
+        return out
+
+    def functions_of_expr(self, e, at):
+        """function bodies an expression used as a callable may denote"""
+        if isinstance(e, ast.Lambda):
+            return [e]
+        if isinstance(e, ast.Name):
+            return self.resolve_name(e.id, at)
+        if isinstance(e, ast.Attribute):
+            return list(self.by_short.get(e.attr, []))
+        if isinstance(e, ast.Call):      # partial(f, ..), cmp_to_key(f), attrgetter(..)
+            out = []
+            for a in list(e.args) + [k.value for k in e.keywords]:
+                if isinstance(a, (ast.Lambda, ast.Name, ast.Attribute)):
+                    out.extend(self.functions_of_expr(a, at))
+            return out
+        if isinstance(e, ast.IfExp):
+            return self.functions_of_expr(e.body, at) + self.functions_of_expr(e.orelse, at)
+        return []
+
+    def direct(self, f):
+        """(seed calls, callees) of one function body / lambda"""
+        if id(f) in self._direct:
+            return self._direct[id(f)]
+        seeds, callees = [], []
+        body = [f.body] if isinstance(f, ast.Lambda) else f.body
+        for st in body:
+            for n in ast.walk(st):
+                if not isinstance(n, ast.Call):
+                    # a function passed on as a key / callback inside the body
+                    continue
+                fu = n.func
+                if isinstance(fu, ast.Name) and fu.id in SEED_CALLS and not self._shadowed(fu.id, n):
+                    seeds.append(n)
+                elif isinstance(fu, ast.Attribute) and fu.attr in SEED_CALLS:
+                    seeds.append(n)
+                else:
+                    callees.extend(self.functions_of_expr(fu, n))
+                for a in list(n.args) + [k.value for k in n.keywords]:
+                    if isinstance(a, ast.Lambda):
+                        callees.append(a)
+                    elif isinstance(a, ast.Name):
+                        if a.id in SEED_CALLS and not self._shadowed(a.id, n):
+                            seeds.append(n)
+                        else:
+                            callees.extend(self.resolve_name(a.id, n))
+        self._direct[id(f)] = (seeds, callees)
+        return seeds, callees
+
+    def _shadowed(self, name, at):
+        for sc in _scope_chain(at):
+            if self.defs(sc).all_defs(name):
+                return True
+        return name in at._module.functions
+
+    def reachable_seeds(self, roots):
+        """seed calls reachable from the given bodies: list of (seed call node, chain of function names)"""
+        out, seen = [], set()
+        stack = [(r, ()) for r in roots]
+        while stack:
+            f, chain = stack.pop()
+            if id(f) in seen:
+                continue
+            seen.add(id(f))
+            seeds, callees = self.direct(f)
+            nm = getattr(f, "name", "<lambda>")
+            for s in seeds:
+                out.append((s, chain + (nm,)))
+            for c in callees:
+                stack.append((c, chain + (nm,)))
+        return out, len(seen)
+
+
+def _key_sites(ctx, cg):
+    """(call node, key expression) for every call that passes a sort key: ``key=`` keyword of any callee and positional
+    arguments bound to a parameter named ``key`` of a repository function"""
+    out = []
+    for mname, m in ctx.model.modules.items():
+        ctx.model.used_modules.add(mname)
+        for n in ast.walk(m.tree):
+            if not isinstance(n, ast.Call):
+                continue
+            k = kwarg(n, "key")
+            if k is None and n.args and not any(isinstance(a, ast.Starred) for a in n.args):
+                for f in cg.functions_of_expr(n.func, n) if isinstance(n.func, ast.Name) else []:
+                    if isinstance(f, ast.Lambda):
+                        continue
+                    params = [a.arg for a in f.args.posonlyargs + f.args.args]
+                    if "key" in params and params.index("key") < len(n.args):
+                        k = n.args[params.index("key")]
+            if k is not None and not (isinstance(k, ast.Constant) and k.value is None):
+                out.append((n, k))
+    return out
+
+
+def r19a_keys(ctx):
+    rule = "R19a"
+    cg = CallGraph(ctx.model)
+    sites = _key_sites(ctx, cg)
+    ctx.floor(rule, "calls that pass a sort key", len(sites), 20)
+    n_fn = 0
+    for call, k in sites:
+        ref = fn_of(call)
+        roots = cg.functions_of_expr(k, call)
+        direct = isinstance(k, ast.Name) and k.id in SEED_CALLS and not cg._shadowed(k.id, call)
+        seeds, n = cg.reachable_seeds(roots)
+        n_fn += n
+        if direct:
+            ctx.bad(rule, call, f"`{short(call, 70)}` sorts by {k.id}(): the order depends on the interpreter's hash seed / addresses",
+                    fn=ref, key=f"key {k.id}")
+            continue
+        for s, chain in seeds:
+            ctx.bad(rule, s, f"`{U(s)}` is evaluated for the sort key of `{short(call, 60)}` (via {' -> '.join(chain)}): the order of the "
+                    "sorted elements (and with it the printed text and the term count) depends on PYTHONHASHSEED / object addresses",
+                    fn=fn_of(s), key=f"{U(s.func)} in key {chain[-1]}")
+        if not seeds:
+            ctx.ok(rule, k, f"sort key of `{call_name(call)}` and the {n} function(s) it reaches are free of hash()/id()", fn=ref,
+                   key=f"key site {ref} {call.lineno - getattr(enclosing(call, FuncNode), 'lineno', 0)}")
+    ctx.floor(rule, "function bodies reached from sort keys", n_fn, 20)
 
 
 def is_set_expr(n):
@@ -174,114 +367,391 @@ def r19a(ctx):
     ctx.floor(rule, "set iteration sites examined", n_sites, 15)
 
 
+# ====================================================================== R19g
+# canonical sort key: decision table over a sample of indices (evaluated, not read)
+
+_SAMPLE_NAMES = {"occ": ("i", "j", "o", "i1", "j1", "i2", "k2", "i10", "j3"), "virt": ("a", "b", "h", "a1", "b1", "a2", "c10"),
+                 "general": ("p", "q", "p1", "q2", "p10")}
+
+
+def _index_obj(name, space, spin, tag):
+    o = Obj("indices:Index", f"{name}_{spin}#{tag}")
+    o.attrs.update(name=name, space=space, spin=spin, dummy_index=sym(f"dummy#{tag}"), space_and_spin=(space, spin))
+    return o
+
+
+def _expected_key(name, space, spin):
+    return (space[0], spin, int(name[1:]) if name[1:] else 0, name[0])
+
+
 def r19g(ctx):
     rule = "R19g"
     fn = ctx.model.fn("indices:sort_idx_canonical")
-    rets = common.returns_of(fn)
-    idx_ret = [r for r in rets if ("isinstance(idx, Index)", True) in conditions(r)]
-    ok = len(idx_ret) == 1 and isinstance(idx_ret[0].value, ast.Tuple)
-    comps = [U(e) for e in idx_ret[0].value.elts] if ok else []
-    want = ["idx.space[0]", "idx.spin", "int(idx.name[1:]) if idx.name[1:] else 0", "idx.name[0]"]
-    ctx.check(rule, fn, comps[:4] == want, "key = (space, spin, number, letter, tie-break)",
-              f"canonical key starts with {comps[:4]}; expected {want} before any tie-break", key="key prefix")
-    ctx.check(rule, fn, len(comps) >= 4 and all("hash(" not in c and "id(" not in c for c in comps[:4]), "identity components are hash free",
-              "hash in the identity part of the key", key="prefix hash free")
+    sx = Symex(ctx.model, inline=lambda q: True, what="sort_idx_canonical")
+    sample = [(n, sp, s) for sp, names in _SAMPLE_NAMES.items() for n in names for s in ("", "a", "b")]
+    keys = {}
+    for k, (n, sp, s) in enumerate(sample):
+        outs = sx.run(fn, lambda: dict(idx=_index_obj(n, sp, s, k)))
+        if len(outs) != 1 or outs[0].kind != "return":
+            ctx.bad(rule, fn, f"sort_idx_canonical(Index {n}, {sp}, '{s}') does not return one key: {outs}", key=f"key shape {n} {sp} {s}")
+            return
+        keys[(n, sp, s)] = outs[0].value
+    wrong, tied = [], []
+    n_pairs = 0
+    for x in sample:
+        for y in sample:
+            ex, ey = _expected_key(*x), _expected_key(*y)
+            if not ex < ey:
+                continue
+            n_pairs += 1
+            try:
+                lt = keys[x] < keys[y]
+            except TypeError:
+                tied.append((x, y))
+                continue
+            if lt is not True:
+                wrong.append((x, y))
+    ctx.floor(rule, "ordered pairs of sample indices", n_pairs, 500)
+    ctx.check(rule, fn, not wrong, f"{n_pairs} pairs of indices are ordered by (space, spin, number, letter)",
+              f"canonical key orders {len(wrong)} of {n_pairs} index pairs differently from (space, spin, number, letter), e.g. "
+              f"{wrong[0][0] if wrong else ''} is not sorted before {wrong[0][1] if wrong else ''}: keys "
+              f"{show(keys[wrong[0][0]]) if wrong else ''} / {show(keys[wrong[0][1]]) if wrong else ''}", key="key prefix")
+    ctx.check(rule, fn, not tied, "space, spin, number and letter decide the order before any tie-break",
+              f"{len(tied)} pairs of indices with different (space, spin, number, letter) are only separated by the tie-break "
+              f"(e.g. {tied[0][0] if tied else ''} / {tied[0][1] if tied else ''}): their order depends on the creation history",
+              key="prefix decides")
+    # the tie-break part of an Index key and the key of a non-Index are free of hash()/id() on every path
+    bad = []
+    for arg in (_index_obj("i3", "occ", "", "t"), sym("X")):
+        for o in sx.run(fn, lambda: dict(idx=arg)):
+            for c in calls([o.value] + list(o.effects)):
+                nm = c.args[0] if c.op == "call" else c.args[1]
+                if nm in SEED_CALLS:
+                    bad.append(show(c))
+    ctx.check(rule, fn, not bad, "evaluated key free of hash()/id()", f"the evaluated sort key contains {bad[:2]}: "
+              "it depends on PYTHONHASHSEED / object addresses", key="prefix hash free")
 
 
-# ---------------------------------------------------------------------- D4
+# ====================================================================== R19b
+# The derivation layer evaluated with a model of the index registry: generic requests hand out fresh index objects, named
+# requests hand out one object per name, every call of an uncached wavefunction method is a distinguishable instance.
+
+GS, IS, SM, PR, OP = dx.GS, dx.IS, dx.SM, dx.PR, dx.OP
+UNCACHED = (GS + ".psi", GS + ".overlap", GS + ".norm_factor")
+PURE_NUMBER_CALLS = {"Rational", "sqrt", "factorial", "sympify", "len", "Integer", "nsimplify"}
+TENSOR_CTORS = ("AntiSymmetricTensor", "SymmetricTensor", "Amplitude", "NonSymmetricTensor")
 
 
-def d4(ctx):
+def is_cached(fn):
+    return any(d in CACHE_DECOS for d in common.decorators(fn))
+
+
+def _split_names(s):
+    out = []
+    for ch in s:
+        if ch.isdigit() and out:
+            out[-1] += ch
+        elif ch != ",":
+            out.append(ch)
+    return out
+
+
+class IndexModel:
+    """Reference model of ``Indices``: one object per (name, spin); generic requests never repeat a name."""
+
+    def __init__(self):
+        self.n = 0
+        self.objs = {}
+
+    def reset(self):
+        self.n = 0
+        self.objs = {}
+
+    def named(self, name, spin=""):
+        space = "occ" if name[0] in "ijklmno" else "virt" if name[0] in "abcdefgh" else "general"
+        if (name, spin) not in self.objs:
+            o = Obj("indices:Index", name + (f"_{spin}" if spin else ""))
+            o.attrs.update(name=name, space=space, spin=spin, space_and_spin=(space, spin))
+            self.objs[(name, spin)] = o
+        return self.objs[(name, spin)]
+
+    def fresh(self, space, spin=""):
+        self.n += 1
+        name = {"occ": "i", "virt": "a", "general": "p"}[space] + str(100 + self.n)
+        return self.named(name, spin)
+
+    def hooks(self):
+        def names_arg(a, kw, pname):
+            a = [x for x in a if not isinstance(x, T) and not (isinstance(x, Obj) and x.cls != "indices:Index")]
+            v = a[0] if a else kw.get(pname)
+            sp = a[1] if len(a) > 1 else kw.get("spins")
+            return v, sp
+
+        def get_indices(sx, a, kw):
+            ind, spins = names_arg(a, kw, "indices")
+            if isinstance(ind, str):
+                ind = _split_names(ind)
+            if not isinstance(ind, (list, tuple)) or not all(isinstance(x, str) for x in ind):
+                return NotImplemented
+            ret = {}
+            for k, nm in enumerate(ind):
+                sp = spins[k] if spins else ""
+                sx.effects.append(T("named_request", nm))
+                o = self.named(nm, sp)
+                ret.setdefault((o.attrs["space"], sp), []).append(o)
+            return ret
+
+        def get_symbols(sx, a, kw):
+            ind, spins = names_arg(a, kw, "indices")
+            if isinstance(ind, Obj):
+                return [ind]
+            if isinstance(ind, (list, tuple)) and ind and all(isinstance(x, Obj) for x in ind):
+                return list(ind)
+            if isinstance(ind, str):
+                ind = _split_names(ind)
+            if not isinstance(ind, (list, tuple)) or not all(isinstance(x, str) for x in ind):
+                return NotImplemented
+            out = []
+            for k, nm in enumerate(ind):
+                sx.effects.append(T("named_request", nm))
+                out.append(self.named(nm, spins[k] if spins else ""))
+            return out
+
+        def get_generic_indices(sx, a, kw):
+            ret = {}
+            for key, n in kw.items():
+                if not isinstance(n, int):
+                    return NotImplemented
+                if n == 0:
+                    continue
+                space, _, spin = key.partition("_")
+                if space not in ("occ", "virt", "general"):
+                    return NotImplemented
+                objs = [self.fresh(space, spin) for _ in range(n)]
+                for o in objs:
+                    sx.effects.append(T("generic_request", o.attrs["name"]))
+                ret[(space, spin)] = objs
+            return ret
+
+        def generic_indices_from_space(sx, a, kw):
+            s = a[0] if a else kw.get("space_str")
+            if not isinstance(s, str):
+                return NotImplemented
+            r = get_generic_indices(sx, [], {"occ": s.count("h"), "virt": s.count("p")})
+            return r.get(("occ", ""), []) + r.get(("virt", ""), [])
+
+        return {"get_indices": get_indices, "Indices.get_indices": get_indices, "get_symbols": get_symbols,
+                "get_generic_indices": get_generic_indices, "Indices.get_generic_indices": get_generic_indices,
+                "generic_indices_from_space": generic_indices_from_space}
+
+
+def _taylor(order, min_order, tag):
+    """What expand_norm_factor / expand_S_taylor hand out: (coefficient, compositions of the order into e parts >= min_order)."""
+    if order < min_order:
+        return [(1, [(order,)])]
+    return [(sym(f"{tag}{e}"), dx.compositions(order, e, lo=min_order)) for e in range(1, order // min_order + 1)]
+
+
+class DerivEval:
+    def __init__(self, ctx):
+        self.ctx = ctx
+        self.im = IndexModel()
+        self.inst = 0
+        self.uncached = [r for r in UNCACHED if not is_cached(ctx.model.fn(r))]
+
+    def _fresh_hook(self, ref):
+        fn = self.ctx.model.fn(ref)
+        name = ref.split(".")[-1]
+
+        def hook(sx, a, kw):
+            b = sx.bind(fn, a, kw, False, True, True)
+            b.pop("self", None)
+            self.inst += 1
+            return T("fresh", name, self.inst, tuple((k, _freeze(v)) for k, v in b.items()))
+        return hook
+
+    def sx(self, what, scen, variant="pp"):
+        hk = self.im.hooks()
+        for ref in self.uncached:
+            hk[ref.split(":")[1].split(".", 1)[0] + "." + ref.split(".")[-1]] = self._fresh_hook(ref)
+
+        def tay(tag):
+            def h(sx, a, kw):
+                a = [x for x in a if not isinstance(x, Obj)]
+                order = kw.get("order", a[0] if a else None)
+                mo = kw.get("min_order", a[1] if len(a) > 1 else 2)
+                if not isinstance(order, int) or not isinstance(mo, int):
+                    return NotImplemented
+                return _taylor(order, mo, tag)
+            return h
+        hk["expand_norm_factor"] = tay("c")
+        hk["expand_S_taylor"] = tay("s")
+        sx = dx.make_sx(self.ctx, what, scen, extra_inline={SM + ".block_order", SM + ".max_ptorder_spaces"}, hooks=hk,
+                        max_paths=20000)
+        base = scen.reset
+
+        def reset(s):
+            base(s)
+            self.im.reset()
+            self.inst = 0
+        sx.on_start = reset
+        return sx
+
+    def objects(self, scen):
+        h, gs, isr = scen.objects()
+        sm = Obj(SM, "sm", gs=gs, isr=isr, h=h, indices=Obj("indices:Indices", "sm.indices"))
+        pr = Obj(PR, "pr", gs=gs, l_isr=isr, r_isr=isr, l_m=sm, r_m=sm, h=h)
+        h.attrs["_indices"] = Obj("indices:Indices", "h.indices")
+        return {GS: gs, IS: isr, SM: sm, PR: pr, OP: h}
+
+
+def _scenarios(tier):
+    S = []
+    I1, I2, I3 = "k5c5", "l6d6", "k5l5c5d5"
+    top = 3 if tier == "quick" else 4
+    for o in range(0, top + 1):
+        S.append((GS + ".energy", dict(order=o)))
+        S.append((GS + ".overlap", dict(order=o)))
+        S.append((GS + ".expectation_value", dict(order=o, n_particles=1)))
+    for o in range(0, 7 if tier == "quick" else 9):
+        S.append((GS + ".norm_factor", dict(order=o)))
+        S.append((IS + ".s_root", dict(order=o, block="ph,ph", indices=f"{I1},{I2}")))
+    for o in range(1, top + 1):
+        S.append((GS + ".psi", dict(order=o, braket="ket")))
+        S.append((GS + ".psi", dict(order=o, braket="bra")))
+        S.append((GS + ".mp_amplitude", dict(order=o, space="ph", indices=I1)))
+        S.append((GS + ".mp_amplitude", dict(order=o, space="pphh", indices=I3)))
+        S.append((GS + ".amplitude_residual", dict(order=o, space="pphh", indices=I3)))
+    for o in range(0, top + 1):
+        for bk in ("bra", "ket"):
+            S.append((IS + ".precursor", dict(order=o, space="ph", braket=bk, indices=I1)))
+            if o <= (1 if tier == "quick" else 2):
+                S.append((IS + ".precursor", dict(order=o, space="pphh", braket=bk, indices=I3)))
+            S.append((IS + ".intermediate_state", dict(order=o, space="ph", braket=bk, indices=I1)))
+        S.append((IS + ".overlap_precursor", dict(order=o, block="ph,ph", indices=f"{I1},{I2}")))
+        S.append((IS + ".overlap_isr", dict(order=o, block="ph,ph", indices=f"{I1},{I2}")))
+    S.append((IS + ".amplitude_vector", dict(indices=I1, lr="right")))
+    S.append((IS + ".amplitude_vector", dict(indices=I3, lr="left")))
+    for o in range(0, 3):
+        S.append((SM + ".isr_matrix_block", dict(order=o, block="ph,ph", indices=f"{I1},{I2}", subtract_gs=True)))
+        S.append((SM + ".precursor_matrix_block", dict(order=o, block="ph,pphh", indices=f"{I1},l6m6d6e6", subtract_gs=True)))
+        S.append((SM + ".mvp_block_order", dict(order=o, space="ph", block="ph,ph", indices=I1, subtract_gs=True)))
+        S.append((SM + ".expectation_value_block_order", dict(order=o, block="ph,ph", subtract_gs=True)))
+        S.append((SM + ".mvp", dict(adc_order=o, space="ph", indices=I1, order=None, subtract_gs=True)))
+        S.append((SM + ".expectation_value", dict(adc_order=o, order=None, subtract_gs=True)))
+        S.append((PR + ".expec_block_contribution", dict(order=o, block="ph,ph", n_particles=1, subtract_gs=True)))
+        S.append((PR + ".expectation_value", dict(adc_order=o, n_particles=1, order=None, subtract_gs=True)))
+        S.append((PR + ".trans_moment_space", dict(order=o, space="ph", n_create=None, n_annihilate=None, lr_isr="left",
+                                                  subtract_gs=True)))
+        S.append((PR + ".trans_moment", dict(adc_order=o, n_create=None, n_annihilate=None, order=None, lr_isr="left",
+                                            subtract_gs=True)))
+        S.append((PR + ".operator", dict(order=o, n_create=1, n_annihilate=1, subtract_gs=True)))
+    S.append((OP + ".operator", dict(n_create=1, n_annihilate=1)))
+    S.append((OP + ".operator", dict(n_create=2, n_annihilate=2)))
+    return S
+
+
+def _carries_indices(f):
+    """A factor that stands for an expression with (contracted) indices: contains a call that is not pure arithmetic."""
+    for t in subterms(f):
+        if t.op == "fresh":
+            return True
+        if t.op in ("call", "mcall"):
+            nm = t.args[0] if t.op == "call" else t.args[1]
+            if nm not in PURE_NUMBER_CALLS:
+                return True
+    return False
+
+
+def _products(value):
+    """Every product that occurs in an evaluated value (also inside the arguments of wicks etc.), fully distributed."""
+    v = strip(value, dx.TRANSPARENT_CALLS + ("NO", "Dagger"), dx.TRANSPARENT_MCALLS, dx.TRANSPARENT_ATTRS)
+    seen = set()
+    for t in subterms(v):
+        if t.op in ("mul", "pow") and t not in seen:
+            seen.add(t)
+            for c, fs in expand_products(t):
+                yield fs
+
+
+def _shared(fs):
+    """Index sources that occur more than once in one product: identical index-carrying factors, powers of them and
+    instances of uncached wavefunctions that sit in two factors."""
+    out = []
+    count = {}
+    where = {}
+    for k, f in enumerate(fs):
+        if not isinstance(f, T):
+            continue
+        if f.op == "pow" and isinstance(f.args[1], int) and f.args[1] >= 2 and _carries_indices(f.args[0]):
+            out.append(("power", f))
+        if _carries_indices(f):
+            count[f] = count.get(f, 0) + 1
+        for t in set(x for x in subterms(f) if x.op == "fresh"):
+            where.setdefault(t, set()).add(k)
+    out.extend(("factor twice", f) for f, c in count.items() if c > 1)
+    out.extend(("instance in two factors", t) for t, ks in where.items() if len(ks) > 1 and count.get(t, 0) <= 1)
+    return out
+
+
+def r19b(ctx, tier=None):
     rule = "R19b"
-    gs = "groundstate:GroundState."
-    for m in ("psi", "overlap", "norm_factor"):
-        fn = ctx.model.fn(gs + m)
-        ctx.check(rule, fn, not any(d in CACHE_DECOS for d in common.decorators(fn)), f"{m} is not cached",
+    tier = tier or ctx.tier
+    # the wavefunctions / norm factors are requested afresh: no memoising decorator
+    for ref in UNCACHED:
+        fn = ctx.model.fn(ref)
+        m = ref.split(".")[-1]
+        ctx.check(rule, fn, not is_cached(fn), f"{m} is not cached",
                   f"GroundState.{m} is cached: repeated factors in one product would share their contracted indices",
                   key=f"{m} uncached")
-        lit = [c for c in calls_in(fn) if call_name(c) in ("get_symbols", "get_indices") and c.args and isinstance(c.args[0], ast.Constant)]
-        ctx.check(rule, fn, not lit, f"{m}: no literally named summation index", f"{m} requests literally named indices "
-                  f"`{U(lit[0]) if lit else ''}`", key=f"{m} literal")
-    psi = ctx.model.fn(gs + "psi")
-    gi = [c for c in calls_in(psi) if call_name(c) == "get_generic_indices"]
-    ctx.check(rule, psi, len(gi) == 1, "psi draws its summation indices from get_generic_indices", "psi index source changed", key="psi generic")
-    # norm_factor -> overlap -> psi chain is uncached all the way
-    nf = ctx.model.fn(gs + "norm_factor")
-    ctx.check(rule, nf, any(call_name(c) == "overlap" for c in calls_in(nf)), "norm_factor built from (uncached) overlaps",
-              "norm_factor no longer built from overlap", key="norm chain")
-    ov = ctx.model.fn(gs + "overlap")
-    ctx.check(rule, ov, sum(1 for c in calls_in(ov) if call_name(c) == "psi") == 2, "overlap built from fresh wavefunctions",
-              "overlap no longer requests its wavefunctions itself", key="overlap chain")
-    # multiplicative accumulation of one method in a loop
-    n = 0
-    for mod in ("groundstate", "intermediate_states", "secular_matrix", "properties"):
-        m = ctx.model.module(mod)
-        for q, fn in m.functions.items():
-            for a in walk_fn(fn, nested=False):
-                if isinstance(a, ast.AugAssign) and isinstance(a.op, ast.Mult) and isinstance(a.value, ast.Call) \
-                        and isinstance(a.value.func, ast.Attribute) and U(a.value.func.value).startswith("self") \
-                        and enclosing(a, (ast.For, ast.While)) is not None:
-                    n += 1
-                    callee = call_name(a.value)
-                    if callee in ("overlap",):
-                        ctx.ok(rule, a, f"{q}: repeated factor `{callee}` is uncached", fn=f"{mod}:{q}")
-                    elif callee == "overlap_precursor" and q.endswith("s_root"):
-                        lp = enclosing(a, ast.For)
-                        adv = any(isinstance(s, ast.Delete) and U(s.targets[0]) == "relevant_idx[0]" for s in lp.body)
-                        ctx.check(rule, a, adv and "relevant_idx" in U(kwarg(a.value, "indices", 2)),
-                                  "s_root: cached factor requested with index strings that advance every iteration",
-                                  "s_root multiplies a cached overlap_precursor with non-advancing indices", fn=f"{mod}:{q}",
-                                  key="s_root advance")
-                    else:
-                        ctx.bad(rule, a, f"{q}: `{callee}` is multiplied repeatedly in a loop; unless it is uncached (psi, overlap, "
-                                "norm_factor) the factors share their contracted indices", fn=f"{mod}:{q}", key=f"{q} repeated {callee}")
-    ctx.floor(rule, "multiplicative accumulations in the derivation layer", n, 0)
-    # the repeated factors are requested afresh for every element of a Taylor term
-    from . import c02
-    c02.taylor_consumer(ctx, rule, "groundstate:GroundState.norm_factor", "overlap")
-    c02.taylor_consumer(ctx, rule, "intermediate_states:IntermediateStates.s_root", "overlap_precursor")
-    # cached derivation methods: named indices only for the caller-supplied strings
-    for mod in ("groundstate", "intermediate_states", "secular_matrix", "properties"):
-        m = ctx.model.module(mod)
-        for q, fn in m.functions.items():
-            if not any(d in CACHE_DECOS for d in common.decorators(fn)):
-                continue
-            params = {a.arg for a in fn.args.args}
-            for c in calls_in(fn):
-                if call_name(c) in ("get_indices", "get_symbols") and c.args:
-                    a0 = c.args[0]
-                    src = U(a0)
-                    ok = (isinstance(a0, ast.Name) and (a0.id in params or a0.id in ("idx", "mvp_idx", "left_idx", "right_idx", "idx_pre",
-                                                                                     "idx_isr", "indices")))
-                    ctx.check(rule, c, ok and not isinstance(a0, ast.Constant), f"{q}: named indices only for the supplied strings",
-                              f"{q} (cached) requests indices `{src}` that are not the caller-supplied target strings: every later "
-                              "call returns an expression over the same index objects", fn=f"{mod}:{q}", key=f"{q} named {src}")
-    # operators: literal p q r s only in the Hamiltonians, generic in Operators.operator
-    op = ctx.model.fn("operators:Operators.operator")
-    ctx.check(rule, op, any(call_name(c) == "get_generic_indices" for c in calls_in(op)) and
-              not any(call_name(c) == "get_indices" for c in calls_in(op)), "Operators.operator uses generic indices",
-              "Operators.operator uses literally named indices although it is cached", key="operator generic")
-    # no product with two identical calls of a cached method
-    cached = set()
-    for mod in ("groundstate", "intermediate_states", "secular_matrix", "properties", "operators"):
-        for q, fn in ctx.model.module(mod).functions.items():
-            if any(d in CACHE_DECOS for d in common.decorators(fn)):
-                cached.add(q.split(".")[-1])
-    from .deriv import flatten_mult
-    n_prod = 0
-    for mod in ("groundstate", "intermediate_states", "secular_matrix", "properties"):
-        for q, fn in ctx.model.module(mod).functions.items():
-            for b in walk_fn(fn, nested=False):
-                if isinstance(b, ast.BinOp) and isinstance(b.op, ast.Mult) and not (
-                        isinstance(b._parent, ast.BinOp) and isinstance(b._parent.op, ast.Mult)):
-                    fs = [f for f in flatten_mult(b) if isinstance(f, ast.Call) and call_name(f) in cached]
-                    n_prod += 1
-                    texts = [U(f) for f in fs]
-                    dup = [t for t in set(texts) if texts.count(t) > 1]
-                    ctx.check(rule, b, not dup, f"{q}: no cached factor twice with identical arguments",
-                              f"{q}: product contains the cached call `{dup[0][:70] if dup else ''}` twice: both factors are the "
-                              "same object with the same contracted indices", fn=f"{mod}:{q}", key=f"{q} dup {dup[0][:40] if dup else ''}")
-    ctx.floor(rule, "products examined for duplicated cached factors", n_prod, 16)
+    de = DerivEval(ctx)
+    n_paths = n_prod = 0
+    for ref, args in _scenarios(tier):
+        fn = ctx.model.fn(ref)
+        cls, meth = ref.rsplit(".", 1)
+        lab = ref.split(":")[1]
+        what = f"{lab}({', '.join(f'{k}={v}' for k, v in args.items() if k in ('order', 'adc_order', 'space', 'block', 'braket'))})"
+        scen = dx.Scenario()
+        sx = de.sx(what, scen)
+        outs = sx.run(fn, lambda: dict(self=de.objects(scen)[cls], **args))
+        rets = [o for o in outs if o.kind == "return"]
+        if not rets:
+            raise AnalysisError(f"R19b: {what} has no returning path ({outs[:2]})")
+        supplied = set()
+        for v in args.values():
+            if isinstance(v, str) and v not in ("bra", "ket", "left", "right") and not set(v) <= set("ph,"):
+                supplied.update(_split_names(v))
+        shared, foreign, stale = [], [], []
+        for o in rets:
+            n_paths += 1
+            generic = {e.args[0] for e in o.effects if e.op == "generic_request"}
+            for e in o.effects:
+                if e.op == "named_request" and e.args[0] not in supplied and e.args[0] not in generic:
+                    foreign.append(e.args[0])
+            for fs in _products(o.value):
+                n_prod += 1
+                shared.extend(_shared(fs))
+            if not is_cached(fn) and meth in ("psi",):
+                # every index of a wavefunction comes from the generic pool of this very call
+                for t in subterms(o.value):
+                    if t.op == "call" and t.args[0] in TENSOR_CTORS:
+                        for s in subterms([v for k, v in t.args[2] if k != "name"] + list(t.args[1][1:])):
+                            if s.op == "sym" and s.args[0] not in generic and not str(s.args[0]).startswith(("gs", "h", "$")):
+                                stale.append(show(s))
+        key = f"{lab} {' '.join(str(v) for v in args.values())}"
+        kind = shared[0][0] if shared else ""
+        ctx.check(rule, fn, not shared, f"{what}: no product contains an index-carrying factor twice",
+                  f"{what}: a product contains the same index-carrying object twice ({kind}): {show(shared[0][1])[:300] if shared else ''}"
+                  " - both factors are one object with the same contracted indices", key=f"shared {key}")
+        if is_cached(fn) or meth == "psi":
+            ctx.check(rule, fn, not foreign, f"{what}: named indices are only requested for the caller-supplied strings / generated names",
+                      f"{what} requests the literally named indices {sorted(set(foreign))}: every later call returns an expression over the "
+                      "same index objects, which collide with these names in the caller's expression", key=f"named {key}")
+        if meth == "psi":
+            ctx.check(rule, fn, not stale, f"{what}: all tensor indices are drawn from get_generic_indices by this call",
+                      f"{what}: tensor indices {sorted(set(stale))} are not generic indices of this request", key=f"psi generic {key}")
+    ctx.floor(rule, "evaluated paths of the derivation layer", n_paths, 300)
+    ctx.floor(rule, "products examined for shared index sources", n_prod, 1000)
 
 
 # ---------------------------------------------------------------------- R19c / R19d
@@ -343,61 +813,150 @@ def c18_ctors():
     return ("AntiSymmetricTensor", "SymmetricTensor", "Amplitude", "NonSymmetricTensor")
 
 
+# ====================================================================== R19c (registry look-ups) / R19d
+
+
+def _self_args(fn, mod):
+    cls = getattr(fn, "_cls", None)
+
+    def make():
+        d = {}
+        a = fn.args
+        for p in a.posonlyargs + a.args + a.kwonlyargs:
+            if p.arg in ("self", "cls") and cls:
+                d[p.arg] = Obj(f"{mod}:{cls}", "self")
+            else:
+                d[p.arg] = sym(p.arg)
+        return d
+    return make
+
+
 def r19h(ctx):
     """look-ups in the registry of intermediates (keyed by default names) use default names"""
     rule = "R19c"
     n = 0
     for ref, fn in ctx.model.all_functions():
-        for c in calls_in(fn, nested=False):
-            if call_name(c) == "get" and U(c.func.value).endswith(".available") and c.args:
-                n += 1
-                a0 = c.args[0]
-                ok = isinstance(a0, ast.Call) and call_name(a0) == "longname" and (
-                    (a0.args and U(a0.args[0]) == "True") or U(kwarg(a0, "use_default_names") or ast.Constant(None)) == "True")
-                ctx.check(rule, c, ok, f"{ref.split(':')[1]}: intermediates looked up by their default long name",
-                          f"`{short(c, 70)}`: the registry of intermediates is keyed by default names; looking up the configured "
-                          "long name misses every intermediate as soon as tensor_names.json renames amplitudes/densities",
-                          fn=ref, key=f"lookup {ref}")
-    ctx.floor(rule, "registry look-ups", n, 3)
+        if getattr(fn, "_fn", None) is not None:
+            continue
+        if not any(isinstance(x, ast.Attribute) and x.attr == "available" for x in walk_fn(fn)):
+            continue
+        mod = ref.split(":")[0]
+        sx = Symex(ctx.model, inline=lambda q: False, what=ref, max_paths=4096)
+        outs = sx.run(fn, _self_args(fn, mod))
+        keys = set()
+        for o in outs:
+            for t in subterms(list(o.effects) + [o.value] + [a for a, _ in o.path]):
+                k = None
+                if t.op == "mcall" and t.args[1] in ("get", "pop", "__getitem__", "__contains__") and t.args[2]:
+                    recv, k = t.args[0], t.args[2][0]
+                elif t.op == "item":
+                    recv, k = t.args[0], t.args[1]
+                elif t.op == "cmp" and t.args[0] in ("in", "not in"):
+                    recv, k = t.args[2], t.args[1]
+                if k is None or not isinstance(recv, T):
+                    continue
+                if not any(s.op == "attr" and s.args[1] == "available" for s in subterms(recv)):
+                    continue
+                for c in subterms(k):
+                    if c.op == "mcall" and c.args[1] == "longname":
+                        keys.add(c)
+        for c in sorted(keys, key=show):
+            n += 1
+            flag = args_of(c).get("use_default_names", args_of(c).get(0))
+            ctx.check(rule, fn, flag is True, f"{ref.split(':')[1]}: intermediates looked up by their default long name",
+                      f"`{show(c)}` is used as key of the registry of intermediates, which is keyed by default names; looking up the "
+                      "configured long name misses every intermediate as soon as tensor_names.json renames amplitudes/densities",
+                      fn=ref, key=f"lookup {ref}")
+    ctx.floor(rule, "registry look-ups by long name", n, 3)
+
+
+def _deco_call(cls, name):
+    for d in cls.decorator_list:
+        f = d.func if isinstance(d, ast.Call) else d
+        if (isinstance(f, ast.Name) and f.id == name) or (isinstance(f, ast.Attribute) and f.attr == name):
+            return d
+    return None
 
 
 def r19d(ctx):
     rule = "R19d"
     cls = ctx.model.cls("tensor_names:TensorNames")
-    deco = " ".join(U(d) for d in cls.decorator_list)
-    ctx.check(rule, cls, "dataclass" in deco and "frozen=True" in deco and "slots=True" in deco, "TensorNames is a frozen slotted dataclass",
-              f"TensorNames decorator is `{deco}`", key="frozen")
-    ctx.check(rule, cls, any(U(k.value) == "Singleton" for k in cls.keywords if k.arg == "metaclass"), "TensorNames is a singleton",
-              "TensorNames lost the Singleton metaclass", key="singleton")
-    m = ctx.model.module("tensor_names")
-    inst = [n for n in m.tree.body if isinstance(n, ast.Assign) and U(n.targets[0]) == "tensor_names"]
-    ctx.check(rule, m.tree, len(inst) == 1 and U(inst[0].value) == "TensorNames._from_config()", "one instance built from the config file",
-              "module level instance changed", key="instance")
+    mod = ctx.model.module("tensor_names")
+    sx = Symex(ctx.model, inline=lambda q: False, what="TensorNames")
+    sx.frames, sx.module, sx.prefix, sx.decisions, sx.facts, sx.path, sx.effects, sx.steps, sx.depth = [{}], mod, [], [], {}, [], [], 0, 0
+    d = _deco_call(cls, "dataclass")
+    opts = {}
+    if isinstance(d, ast.Call):
+        for k in d.keywords:
+            if k.arg is not None:
+                opts[k.arg] = sx.ev(k.value)
+    ctx.check(rule, cls, d is not None and opts.get("frozen") is True and opts.get("slots") is True,
+              "TensorNames is a frozen slotted dataclass", f"TensorNames is declared with dataclass options {opts}: its fields can be "
+              "rebound at run time", key="frozen")
+    meta = [sx.ev(k.value) for k in cls.keywords if k.arg == "metaclass"]
+    ctx.check(rule, cls, len(meta) == 1 and isinstance(meta[0], (ClassRef, Ext)) and repr(meta[0]).rstrip(">").split()[-1].split(".")[-1] == "Singleton",
+              "TensorNames is a singleton", "TensorNames lost the Singleton metaclass", key="singleton")
+    inst = sx.global_name(mod, "tensor_names")
+    ok = isinstance(inst, T) and inst.op == "call" and inst.args[0] in ("_from_config", "TensorNames._from_config") and not args_of(inst)
+    n_bind = sum(1 for st in mod.tree.body for t in (st.targets if isinstance(st, ast.Assign) else [st.target] if isinstance(st, (ast.AnnAssign, ast.AugAssign)) else [])
+                 for x in ast.walk(t) if isinstance(x, ast.Name) and x.id == "tensor_names")
+    ctx.check(rule, mod.tree, ok and n_bind == 1, "one instance built from the config file",
+              f"the module level instance is {show(inst)} (bound {n_bind} times)", key="instance")
     fc = ctx.model.fn("tensor_names:TensorNames._from_config")
-    r = common.returns_of(fc)
-    ctx.check(rule, fc, U(r[0].value) == "TensorNames(**tensor_names)", "all fields taken from the JSON file", "config loading changed",
+    outs = Symex(ctx.model, inline=lambda q: False, what="_from_config").run(fc, lambda: {})
+    ok = len(outs) == 1 and outs[0].kind == "return"
+    v = outs[0].value if ok else None
+    a = args_of(v) if isinstance(v, T) and v.op == "call" and v.args[0] == "TensorNames" else None
+    src = a.get("**") if a else None
+    loads = [c for c in calls(src)] if src is not None else []
+    ok = a is not None and set(a) == {"**"} and any((c.args[0] if c.op == "call" else c.args[1]) in ("load", "json.load", "loads") for c in loads)
+    ctx.check(rule, fc, ok, "all fields taken from the JSON file", f"_from_config returns {show(v)}: not TensorNames(**<loaded json>)",
               key="from config")
+    df = ctx.model.fn("tensor_names:TensorNames.defaults")
+
+    def fields_hook(s, a_, kw_):
+        out = []
+        for nm in ("eri", "gs_amplitude", "orb_energy"):
+            f = Obj(None, "field_" + nm)
+            f.attrs.update(name=nm, default=sym("default_" + nm))
+            out.append(f)
+        return out
+    outs = Symex(ctx.model, inline=lambda q: False, what="defaults", hooks={"fields": fields_hook}).run(df, lambda: {})
+    want = {nm: sym("default_" + nm) for nm in ("eri", "gs_amplitude", "orb_energy")}
+    ok = len(outs) == 1 and outs[0].kind == "return" and outs[0].value == want
+    ctx.check(rule, df, ok, "defaults read from the field table", f"defaults() returns {show(outs[0].value) if outs else '?'} for the fields "
+              "eri, gs_amplitude, orb_energy; expected their default values by name", key="defaults")
+    # no store on the instance anywhere in the package
     n = 0
-    for mname, mod in ctx.model.modules.items():
-        for node in ast.walk(mod.tree):
+    for mname, m in ctx.model.modules.items():
+        ctx.model.used_modules.add(mname)
+        aliases = {loc for loc, origin in m.imports.items() if origin.endswith(":tensor_names") and "tensor_names" in origin.split(":")[0]}
+        if mname == "tensor_names":
+            aliases.add("tensor_names")
+
+        def is_inst(e):
+            return (isinstance(e, ast.Name) and e.id in aliases) or \
+                (isinstance(e, ast.Attribute) and e.attr == "tensor_names" and isinstance(e.value, (ast.Name, ast.Attribute)) and
+                 (e.value.id if isinstance(e.value, ast.Name) else e.value.attr) == "tensor_names")
+        for node in ast.walk(m.tree):
             tgt = []
             if isinstance(node, ast.Assign):
                 tgt = node.targets
             elif isinstance(node, (ast.AugAssign, ast.AnnAssign)):
                 tgt = [node.target]
+            elif isinstance(node, ast.Delete):
+                tgt = node.targets
             for t in tgt:
-                if isinstance(t, ast.Attribute) and U(t.value) in ("tensor_names", "self") and mname == "tensor_names" and U(t.value) == "tensor_names":
-                    ctx.bad(rule, node, "attribute store on the TensorNames instance", key=f"store {U(t)}")
-                if isinstance(t, ast.Attribute) and U(t.value) == "tensor_names":
-                    n += 1
-                    ctx.bad(rule, node, f"`{short(node, 60)}` changes a configured tensor name at run time", key=f"store {U(t)}")
-            if isinstance(node, ast.Call) and U(node.func) in ("object.__setattr__", "setattr") and node.args and "tensor_names" in U(node.args[0]):
-                ctx.bad(rule, node, "setattr on the TensorNames instance", key="setattr")
-    ctx.ok(rule, None, "no attribute store on tensor_names in the package", fn="package", key="no store")
-    df = ctx.model.fn("tensor_names:TensorNames.defaults")
-    r = common.returns_of(df)
-    ctx.check(rule, df, U(r[0].value) == "{field.name: field.default for field in fields(TensorNames)}", "defaults read from the field table",
-              "defaults() changed", key="defaults")
+                for x in ast.walk(t):
+                    if isinstance(x, ast.Attribute) and isinstance(x.ctx, (ast.Store, ast.Del)) and is_inst(x.value):
+                        n += 1
+                        ctx.bad(rule, node, f"`{short(node, 60)}` changes a configured tensor name at run time", key=f"store .{x.attr}")
+            if isinstance(node, ast.Call) and call_name(node) in ("__setattr__", "setattr", "__delattr__", "delattr") and \
+                    any(is_inst(a) for a in node.args[:2]):
+                n += 1
+                ctx.bad(rule, node, f"`{short(node, 60)}` rebinds a field of the TensorNames instance", key="setattr")
+    if not n:
+        ctx.ok(rule, None, "no attribute store on tensor_names in the package", fn="package", key="no store")
 
 
 # ---------------------------------------------------------------------- R19f
@@ -475,6 +1034,7 @@ def r19f(ctx):
                           f"{q} caches and returns a mutable container", fn=f"{mod}:{q}", key=f"{q} immutable")
 
 
+
 def run(ctx):
     if ctx.want("R19g"):
         r19g(ctx)
@@ -486,10 +1046,16 @@ def run(ctx):
     if ctx.want("R19e") or ctx.want("R08c"):
         c08.r08c(ctx)
     if ctx.want("R19a"):
+        r19a_keys(ctx)
         r19a(ctx)
     if ctx.want("R19b"):
-        d4(ctx)
+        r19b(ctx)
     if ctx.want("R08d"):
         c08.r08d(ctx)
     if ctx.want("R19f"):
         r19f(ctx)
+
+
+def run_thorough(ctx):
+    if ctx.want("R19b"):
+        r19b(ctx, "thorough")
